@@ -201,6 +201,70 @@ theorem record_perm (ext : Ext) (sfs : Fields) (n : Bool) (md : Metadata) (nm nm
     rw [pickOne_perm hperm hw]
     exact hf
 
+/-! ### tuple in schema order = struct presentation -/
+
+/-- the struct presentation of a positional record: the schema's field names, in schema order, paired with the values
+(a shorter tuple leaves the last fields out, surplus elements are dropped) -/
+def asRecordFields : List String → List SVal → SFields
+  | n :: ns, v :: vs => .cons n 0 v (asRecordFields ns vs)
+  | _, _ => .nil
+
+theorem interpByName_asRecordFields_absent (ext : Ext) (name : String) (dt : DataType) (n : Bool) (md : Metadata) :
+    ∀ (names : List String) (vs : List SVal), name ∉ names →
+      interpByName ext name dt n md (asRecordFields names vs) = .ok []
+  | [], _, _ => by simp [asRecordFields, interpByName]
+  | _ :: _, [], _ => by simp [asRecordFields, interpByName]
+  | n0 :: ns, v :: vs, h => by
+    simp only [List.mem_cons, not_or] at h
+    have hne : (n0 == name) = false := by simpa using Ne.symm h.1
+    simp only [asRecordFields, interpByName, interpByName_asRecordFields_absent ext name dt n md ns vs h.2, hne,
+      bind, Except.bind]
+    rfl
+
+/-- position `k` of a tuple is what the struct presentation gives for the `k`-th field name (distinct names) -/
+theorem interpByName_asRecordFields (ext : Ext) (name : String) (dt : DataType) (n : Bool) (md : Metadata) :
+    ∀ (names : List String) (vs : List SVal) (k : Nat), names.Nodup → names[k]? = some name →
+      interpByName ext name dt n md (asRecordFields names vs) = interpNth ext dt n md k (SVals.ofList vs)
+  | [], _, _, _, h => by simp at h
+  | _ :: _, [], _, _, _ => by simp [asRecordFields, interpByName, SVals.ofList, interpNth]
+  | n0 :: ns, v :: vs, 0, hnd, h => by
+    simp only [List.getElem?_cons_zero, Option.some.injEq] at h
+    subst h
+    have habs := interpByName_asRecordFields_absent ext n0 dt n md ns vs (List.nodup_cons.1 hnd).1
+    simp only [asRecordFields, interpByName, habs, SVals.ofList, interpNth, beq_self_eq_true, if_true, bind, Except.bind]
+  | n0 :: ns, v :: vs, k + 1, hnd, h => by
+    simp only [List.getElem?_cons_succ] at h
+    have hmem : name ∈ ns := List.mem_of_getElem? h
+    have hne : (n0 == name) = false := by
+      have : n0 ≠ name := fun e => (List.nodup_cons.1 hnd).1 (e ▸ hmem)
+      simpa using this
+    simp only [asRecordFields, interpByName, SVals.ofList, interpNth, hne,
+      interpByName_asRecordFields ext name dt n md ns vs k (List.nodup_cons.1 hnd).2 h, bind, Except.bind]
+    cases interpNth ext dt n md k (SVals.ofList vs) <;> rfl
+
+/-- **tuple ≃ struct**: a record presented as a tuple (or tuple struct) in schema order means exactly what the struct
+presentation with the schema's field names means (schema field names distinct — `build_builder` refuses duplicates) -/
+theorem record_as_tuple (ext : Ext) (sfs : Fields) (n : Bool) (md : Metadata) (nm : String) (vs : List SVal)
+    (hnd : (sfs.toList.map Field.name).Nodup) :
+    interpDT ext (.struct sfs) n md (.tuple (SVals.ofList vs)) =
+      interpDT ext (.struct sfs) n md (.record nm (asRecordFields (sfs.toList.map Field.name) vs)) := by
+  simp only [interpDT, isUnknownVariant, Bool.false_eq_true, if_false, structOf]
+  congr 1
+  apply extra_field_ignored.mapM_congr
+  intro f hf
+  obtain ⟨j, hj, rfl⟩ := List.getElem_of_mem hf
+  have hget : (sfs.toList.map Field.name)[j]? = some sfs.toList[j].name := by
+    rw [List.getElem?_map, List.getElem?_eq_getElem hj]; rfl
+  rw [C11Front.indexOfName_of_get _ hnd _ j hget, Option.getD_some,
+    interpByName_asRecordFields ext _ _ _ _ _ vs j hnd hget]
+
+theorem record_as_tupleStruct (ext : Ext) (sfs : Fields) (n : Bool) (md : Metadata) (nm tn : String) (vs : List SVal)
+    (hnd : (sfs.toList.map Field.name).Nodup) :
+    interpDT ext (.struct sfs) n md (.tupleStruct tn (SVals.ofList vs)) =
+      interpDT ext (.struct sfs) n md (.record nm (asRecordFields (sfs.toList.map Field.name) vs)) := by
+  rw [← record_as_tuple ext sfs n md nm vs hnd]
+  simp only [interpDT]
+
 /-! ### `Item` / `Items` (serde_arrow/src/internal/utils/mod.rs:17-153)
 
 The two wrappers have hand-written `Serialize` impls; they are modelled call by call in Build/Wrappers.lean
@@ -246,6 +310,8 @@ theorem noRaw_serItem (al : Nat) (v : SVal) : noRaw (serItem al v) = noRaw v := 
 example : interpDT {} (.struct (.cons (.mk "a" .int32 false []) (.cons (.mk "b" .utf8 true []) .nil))) false []
       (.record "R" (.cons "b" 1 (.str "x") (.cons "zzz" 2 .unit (.cons "a" 0 (.int .i8 2) .nil)))) =
     .ok (.struct (.cons "a" (.int 2) (.cons "b" (.str [120]) .nil))) := by decide +kernel
+
+example : asRecordFields ["a", "b"] [.int .i8 2, .str "x", .unit] = .cons "a" 0 (.int .i8 2) (.cons "b" 0 (.str "x") .nil) := rfl
 
 example : asEntries (.cons "a" 0 (.int .i8 2) .nil) = .cons (.str "a") (.int .i8 2) .nil := rfl
 
